@@ -224,9 +224,9 @@ func lifecycleCase(c *mon.Ctx, r *mon.Rand, prop string) {
 		{
 			r2 := root.Tagged(nil)
 			r3 := root.Tagged(mon.CopyTags(opts.Tags))
-			root.Gauge("rg").Update(31.5)
-			r2.Gauge("rg").Update(32.5)
-			r3.Gauge("rg").Update(33.5)
+			r2.Gauge("rg").Update(31.5)
+			r3.Gauge("rg").Update(32.5)
+			root.Gauge("rg").Update(33.5) // the handle the root was created as comes last
 			kr := mon.IdentKey("rg", tagsOf(nil))
 			for _, x := range []float64{31.5, 32.5, 33.5} {
 				wantGauge[kr] = append(wantGauge[kr], math.Float64bits(x))
